@@ -852,13 +852,11 @@ static int WriteInclude(DIRFILE *D, int i, int j, size_t ns_offset,
       goto WRITE_ERR;
   }
 
-  /* An empty prefix must be written if there's a suffix, but no namespace */
+  /* An empty prefix must be written if there's a suffix, but no namespace.
+   * The prefix follows the namespace's dot directly: "ns.prefix" is one token */
   if (px || (sx && !ns)) {
-    if (fputc(' ', stream) == EOF || _GD_StringEscapeise(stream, px, 0,
-          permissive, D->standards) < 0)
-    {
+    if (_GD_StringEscapeise(stream, px, 0, permissive, D->standards) < 0)
       goto WRITE_ERR;
-    }
   }
 
   if (sx) {
